@@ -7,7 +7,7 @@
    written from osmformat.proto. *)
 From Coq Require Import ZArith List Bool.
 From Verif Require Import Base.Int64 Pbf.Tree Pbf.Model Pbf.Spec Pbf.Header Pbf.CheckLib Pbf.ProofsArith Pbf.ProofsIndep
-     Pbf.ProofsDecode Pbf.ProofsDense Pbf.ProofsAll Pbf.ProofsHeader Pbf.ProofsFile Pbf.ProofsNoPanic Pbf.ProofsLayout Pbf.ProofsHeaderLayout Pbf.ProtoTypes Pbf.Dispatch Pbf.GenOk.
+     Pbf.ProofsDecode Pbf.ProofsDense Pbf.ProofsAll Pbf.ProofsHeader Pbf.ProofsFile Pbf.ProofsNoPanic Pbf.ProofsLayout Pbf.ProofsHeaderLayout Pbf.ProtoTypes Pbf.Dispatch Pbf.GenOk C01.Compose.
 From VerifGen Require GenProto GenPbfCode.
 Import ListNotations.
 Open Scope Z_scope.
@@ -91,12 +91,8 @@ Proof. vm_compute. split; reflexivity. Qed.
 (* 5. whole files.  (a) one decoder reused for every block; (b) n workers with round-robin dispatch
       and concatenation in file order, for EVERY n; (c) any assignment of decoder states to blocks
       (any worker, any history, any schedule): block k contributes exactly the kept elements of
-      block k.  (c) is the statement C02's order theorem composes with: the pipeline LTS of
-      coq/theories/Pipeline treats a block as [IBlock os] with os independent of the worker that
-      decodes it — justified by theorem 1 — and C02's delivered_is_prefix / completes (stated in
-      Properties/C02.v, not yet proved there for every schedule) say that what Scan delivers is the
-      concatenation of the per-block results in file order; with (c) that concatenation is
-      elements_file f.  The round-robin instance (b) is proved here outright. *)
+      block k.  The composition with the PROVED order theorems of C02 (the pipeline LTS of
+      coq/theories/Pipeline, every decoder count and every schedule) is section 10 below. *)
 Theorem C01_scan_file_sequential : forall f, valid_file f = true -> forall c st,
   scan_blocks c st (encode_file f) = Ok (map (fun b => filter (keeps c) (elements b)) f).
 Proof. exact scan_blocks_encode. Qed.
@@ -198,3 +194,60 @@ Theorem C01_decoder_dispatch_matches_proto :
   /\ proto_default sPrimitiveBlock 17 = Some (gran p0) /\ proto_default sPrimitiveBlock 18 = Some (dgran p0).
 Proof. exact decoder_dispatch_matches_proto. Qed.
 Print Assumptions C01_decoder_dispatch_matches_proto.
+
+(* 10. COMPOSITION WITH C02 (C01/Compose.v).  The pipeline LTS of coq/theories/Pipeline moves abstract
+      objects and treats file block i as [IBlock os_i], a block that decodes to os_i whichever worker in
+      whatever private state decodes it.  [inst c f] instantiates it for a valid file description f and
+      a scanner configuration c: os_i = the positions, in the kept element sequence of the file, of the
+      elements of block i; [lab c f] reads a position back as the object.
+      (a) the instantiation is sound: for EVERY decoder state st the block decoder applied to the
+          encoding of block i returns exactly the objects labelled os_i (decode_encode_block + filter
+          theorem; the worker's private state does not matter);
+      (b) for every n >= 1, every channel budget and EVERY reachable state of the pipeline — every
+          interleaving of reader, n workers, serializer, consumer and API calls (Scan, Err, Close, cancel,
+          cancel from another goroutine), every resolution of every select — the objects delivered so far
+          are a prefix of elements_file f;
+      (c) the same for the objects returned by the successful Scans of any schedule (a list of labels);
+      (d) a completed run (no Close, no cancellation, the scan has ended) delivered exactly
+          elements_file f, ended with EOF, and Err() = nil.
+      (b)-(d) use C02_delivered_is_prefix / C02_scans_are_prefix / C02_completes (Properties/C02.v). *)
+Theorem C01_pipeline_instantiation_sound : forall c f, valid_file f = true ->
+  Forall2 (fun it b => exists os, it = Compose.PL.IBlock os /\
+             forall st, scan_result c st (encode_block b) = Ok (map (lab c f) os))
+          (inst c f) f.
+Proof. exact instantiation_sound. Qed.
+Print Assumptions C01_pipeline_instantiation_sound.
+
+Theorem C01_pipeline_delivers_prefix : forall f n budget s,
+  valid_file f = true -> (1 <= n)%nat -> Compose.PB.reach (pcfg n budget (inst cfg_all f)) s ->
+  exists t, map (lab cfg_all f) (Compose.PL.delivered s) ++ t = elements_file f.
+Proof. intros f n budget s Hv Hn Hr. rewrite <- kept_all. exact (delivered_prefix_of_elements cfg_all f n budget s Hv Hn Hr). Qed.
+Print Assumptions C01_pipeline_delivers_prefix.
+
+Theorem C01_pipeline_scans_prefix_every_schedule : forall f n budget sched,
+  valid_file f = true -> (1 <= n)%nat ->
+  exists t, map (lab cfg_all f)
+              (Compose.PO.scan_vals (snd (Compose.PL.run (pcfg n budget (inst cfg_all f)) sched
+                                                         (Compose.PL.init (pcfg n budget (inst cfg_all f)))))) ++ t
+            = elements_file f.
+Proof. intros f n budget sched Hv Hn. rewrite <- kept_all. exact (scans_prefix_of_elements cfg_all f n budget sched Hv Hn). Qed.
+Print Assumptions C01_pipeline_scans_prefix_every_schedule.
+
+Theorem C01_pipeline_completed_run : forall f n budget s,
+  valid_file f = true -> (1 <= n)%nat -> Compose.PB.reach (pcfg n budget (inst cfg_all f)) s ->
+  Compose.PL.closed s = false -> Compose.PL.pcancelled s = false -> Compose.PL.s_err s <> 0%Z ->
+  map (lab cfg_all f) (Compose.PL.delivered s) = elements_file f
+  /\ Compose.PL.s_err s = Compose.PL.eEOF /\ Compose.PL.err_value s = 0%Z.
+Proof.
+  intros f n budget s Hv Hn Hr H1 H2 H3. rewrite <- kept_all.
+  exact (completed_run_delivers_elements cfg_all f n budget s Hv Hn Hr H1 H2 H3).
+Qed.
+Print Assumptions C01_pipeline_completed_run.
+
+(* non-vacuity: the witness block as a two-block file, 3 workers: the instantiated input, and a state
+   reached by a complete fair run *)
+Example C01_witness_pipeline :
+  let f := [C01_witness_block; C01_witness_block] in
+  valid_file f = true /\ inst cfg_all f = [Compose.PL.IBlock [0; 1; 2; 3]%Z; Compose.PL.IBlock [4; 5; 6; 7]%Z]
+  /\ map (lab cfg_all f) [0; 1; 2; 3; 4; 5; 6; 7]%Z = elements_file f.
+Proof. vm_compute. repeat split; reflexivity. Qed.
